@@ -43,9 +43,19 @@ func (lam *Lambda) Call(s *Scope, args List, depth int) (result Object) {
 	// A parameter is unbound if no argument was bound to it in the new
 	// scope, a variable of the same name in an enclosing scope or a global
 	// variable does not count.
+	// The parameters that get the value of a default form are bound in
+	// scopes of their own below ss, cur is the innermost of them.
+	cur := ss
 	bound := func(name string) bool {
-		_, has := ss.Vars[strings.ToLower(name)]
-		return has
+		name = strings.ToLower(name)
+		for sc := cur; ; sc = sc.parents[0] {
+			if _, has := sc.Vars[name]; has {
+				return true
+			}
+			if sc == ss {
+				return false
+			}
+		}
 	}
 	mode := reqMode
 	ai := 0
@@ -153,7 +163,15 @@ Aux:
 		ss.Let(restSym, rest)
 	}
 	// Next bind any unbound &optional and &key vars to the value of their
-	// default form, evaluated in the scope being built, then the &aux vars.
+	// default form, then the &aux vars. A default form sees the parameters
+	// before it. Each of these parameters gets a scope of its own, as with
+	// let*, so that a closure made by a default form does not see the
+	// parameters that follow.
+	bindDefault := func(name string, form Object) {
+		value := cur.Eval(form, depth+1)
+		cur = cur.NewScope()
+		cur.Let(Symbol(name), value)
+	}
 	mode = reqMode
 	for _, ad := range lam.Doc.Args {
 		switch mode {
@@ -182,7 +200,7 @@ Aux:
 				// ignore
 			default:
 				if !bound(ad.Name) {
-					ss.Let(Symbol(ad.Name), ss.Eval(ad.Default, depth+1))
+					bindDefault(ad.Name, ad.Default)
 				}
 			}
 		case restMode:
@@ -195,7 +213,7 @@ Aux:
 				// ignore
 			default:
 				if !bound(ad.Name) {
-					ss.Let(Symbol(ad.Name), ss.Eval(ad.Default, depth+1))
+					bindDefault(ad.Name, ad.Default)
 				}
 			}
 		case keyMode:
@@ -203,13 +221,18 @@ Aux:
 			if AmpAux == asym {
 				mode = auxMode
 			} else if !bound(ad.Name) {
-				ss.Let(asym, ss.Eval(ad.Default, depth+1))
+				bindDefault(ad.Name, ad.Default)
 			}
 		case auxMode:
-			ss.Let(Symbol(ad.Name), ss.Eval(ad.Default, depth+1))
+			bindDefault(ad.Name, ad.Default)
 		}
 	}
-	return lam.BoundCall(ss, depth)
+	if cur != ss {
+		// The body runs in the innermost scope, still the block of the call.
+		cur.Block = true
+		cur.Name = ss.Name
+	}
+	return lam.BoundCall(cur, depth)
 }
 
 // BoundCall the the function with the bindings provided.
